@@ -15,7 +15,7 @@ use serde_json::{json, Value};
 use std::collections::{BTreeMap, BTreeSet};
 use std::str::FromStr;
 
-pub const HEADER: &str = "DECLARE ro BIT\nDECLARE raw REAL[4]\nDECLARE theta REAL\nDECLARE n INTEGER\nDECLARE a REAL\nDECLARE b REAL\nDEFFRAME 0 \"a\":\n    SAMPLE-RATE: 1.0\nDEFFRAME 1 \"a\":\n    SAMPLE-RATE: 1.0\nDEFFRAME 0 1 \"c\":\n    SAMPLE-RATE: 1.0\nDEFFRAME 0 \"b\":\n    SAMPLE-RATE: 1.0\nDEFWAVEFORM wf:\n    1, 1, 1, 1\n";
+pub const HEADER: &str = "DECLARE ro BIT\nDECLARE raw REAL[4]\nDECLARE theta REAL\nDECLARE n INTEGER\nDECLARE a REAL\nDECLARE b REAL\nDEFFRAME 0 \"a\":\n    SAMPLE-RATE: 1.0\nDEFFRAME 1 \"a\":\n    SAMPLE-RATE: 1.0\nDEFFRAME 0 1 \"c\":\n    SAMPLE-RATE: 1.0\nDEFFRAME 0 \"b\":\n    SAMPLE-RATE: 2.0\nDEFWAVEFORM wf:\n    1, 1, 1, 1\nPRAGMA EXTERN f \"(x : mut REAL, y : REAL)\"\n";
 
 /// general menu: frames on overlapping qubit sets, blocking / non-blocking, every RF kind, a pulse on
 /// an undefined frame of an unused qubit (matches nothing) and one on a used qubit (only *blocks*),
@@ -72,6 +72,8 @@ pub const MENU_M: &[&str] = &[
     "GT ro b 0.5",
     "STORE a n 7",
     "MOVE n 1",
+    "CALL f a b",
+    "CALL f b 1.5",
 ];
 /// timed menu for C25: only instructions with a known duration
 pub const MENU_T: &[&str] = &[
@@ -145,6 +147,39 @@ fn ref_duration(p: &Program, i: &Instruction, fr: &Fr) -> Option<f64> {
         | Instruction::SwapPhases(_) => Some(0.0),
         _ => None,
     }
+}
+
+/// reference accesses incl. CALL (per the statement: mutable parameters and the return slot are
+/// written, every passed region is read)
+fn ref_mem_p(p: &Program, i: &Instruction) -> Mem {
+    if let Instruction::Call(c) = i {
+        let mut m = Mem::default();
+        if let Ok(map) = p.try_extern_signature_map_from_pragma_map() {
+            if let Some((_, sig)) = map.iter().find(|(k, _)| k.as_str() == c.name) {
+                let mut args = c.arguments().iter();
+                let name = |a: &UnresolvedCallArgument| match a {
+                    UnresolvedCallArgument::Identifier(n) => Some(n.clone()),
+                    UnresolvedCallArgument::MemoryReference(r) => Some(r.name.clone()),
+                    _ => None,
+                };
+                if sig.return_type().is_some() {
+                    if let Some(n) = args.next().and_then(name) {
+                        m.w.insert(n);
+                    }
+                }
+                for (a, prm) in args.zip(sig.parameters()) {
+                    if let Some(n) = name(a) {
+                        m.r.insert(n.clone());
+                        if prm.mutable() {
+                            m.w.insert(n);
+                        }
+                    }
+                }
+            }
+        }
+        return m;
+    }
+    ref_mem(i).unwrap_or_default()
 }
 
 struct BlockFacts {
@@ -242,8 +277,8 @@ fn analyze(p: &Program, which: Which, facts: &mut BlockFacts) -> Result<Vec<(Str
             Which::C23 => {
                 let c_any = close(&adj_any);
                 let term = b.terminator().clone().into_instruction();
-                let mut mems: Vec<Mem> = b.instructions().iter().map(|i| ref_mem(i).unwrap_or_default()).collect();
-                mems.push(term.as_ref().and_then(ref_mem).unwrap_or_default());
+                let mut mems: Vec<Mem> = b.instructions().iter().map(|i| ref_mem_p(p, i)).collect();
+                mems.push(term.as_ref().map(|t| ref_mem_p(p, t)).unwrap_or_default());
                 let name = |k: usize| if k < n { q(b.instructions()[k]) } else { term.as_ref().map(q).unwrap_or_default() };
                 for i in 0..=n {
                     for j in i + 1..=n {
@@ -1117,7 +1152,7 @@ pub static C23: PropDef = PropDef {
     id: "C23",
     level: "model_checking",
     engine: "queue",
-    rule: "(A) every sequence of length <= L over a 19-instruction memory menu (regions a,b: every access shape, two captures into one region on disjoint non-blocking frames) and over the 28-instruction general menu, x 3 terminators, scheduled by the real code; (B) every access sequence (Read/Write/Capture) of length <= 8 (11 thorough) on one real DependencyQueue and every sequence of <= 4 (5) multi-queue actions on two queues, through the hook; (C) a TLA+ model of the queue (tla/DependencyQueue.tla) checked by TLC for TypeOK, SequentiallyConsistent, Justified, Rooted, PendingExact over all histories of length <= 6 (8), with EVERY state of TLC's dumped graph replayed on the real queue (conformance). non-trivial = program with >= 1 conflicting memory pair / queue sequence of length >= 2",
+    rule: "(A) every sequence of length <= L over a 21-instruction memory menu (regions a,b: every access shape, two captures into one region on disjoint non-blocking frames) and over the 28-instruction general menu, x 3 terminators, scheduled by the real code; (B) every access sequence (Read/Write/Capture) of length <= 8 (11 thorough) on one real DependencyQueue and every sequence of <= 4 (5) multi-queue actions on two queues, through the hook; (C) a TLA+ model of the queue (tla/DependencyQueue.tla) checked by TLC for TypeOK, SequentiallyConsistent, Justified, Rooted, PendingExact over all histories of length <= 6 (8), with EVERY state of TLC's dumped graph replayed on the real queue (conformance). non-trivial = program with >= 1 conflicting memory pair / queue sequence of length >= 2",
     assumptions: ASSUME,
     run: |ctx| {
         ctx.bound("menu_memory", json!(MENU_M));
